@@ -310,6 +310,35 @@ def sec_selfcheck(rep, seed):
     rep.add(Ob("C13/selfcheck/canary-refuted", "canary", PROVED if o.status == REFUTED else "error", "ratfun", o.seconds, f"wrong variant: {o.status}; replay confirmed={o.replay.get('confirmed')}"))
 
 
+def sec_decoupling_via_card(rep):
+    """Decoupling the Z the way a user does it -- MZ = inf in the theory card -- through the real
+    CouplingConstants.from_dict: the card value is used as given (infinity is a legal value, not a
+    missing one), the propagator factors vanish and every NC weight equals the EM one."""
+    import math
+
+    from yadism.coefficient_functions.coupling_constants import CouplingConstants
+
+    rep.under_contract(CouplingConstants.from_dict)
+    for proj in ("electron", "positron", "neutrino"):
+        for pol in (0.0, 0.7):
+            rep.cases += 1
+            th = H.base_theory(MZ=math.inf)
+            nc = CouplingConstants.from_dict(th, H.base_obs(prDIS="NC", ProjectileDIS=proj, PolarizationDIS=pol))
+            em = CouplingConstants.from_dict(th, H.base_obs(prDIS="EM", ProjectileDIS=proj, PolarizationDIS=pol))
+            bad = []
+            if not math.isinf(float(nc.theory_config["MZ2"])):
+                bad.append(("MZ2 stored", float(nc.theory_config["MZ2"])))
+            for Q2 in (1.0, 100.0, 1.0e4):
+                for q in range(1, 7):
+                    for ct in ("VV", "AA", "VA", "AV"):
+                        a, b = float(nc.get_weight(q, Q2, ct)), float(em.get_weight(q, Q2, ct))
+                        if proj == "neutrino":
+                            b = 0.0  # a neutrino has no electromagnetic coupling: with the Z decoupled nothing is left
+                        if abs(a - b) > 1e-14:
+                            bad.append((q, Q2, ct, a, b))
+            rep.add(ob_eval(f"C13/decoupling/card MZ=inf through from_dict/{proj}/pol={pol}: NC weights == EM weights", not bad, detail=str(bad[:3]), inputs={} if not bad else {"card": "MZ = inf", "violated (quark, Q2, type, NC, EM)": str(bad[:3])}))
+
+
 def sec_xs_conjugation(rep):
     """Cross-section level of the conjugation relations: with abstract structure functions,
     sigma(antiparticle beam)[F2, FL, -xF3] == sigma(particle beam)[F2, FL, xF3] order key by order key,
@@ -365,7 +394,7 @@ def run(rep, tier, seed, only=None):
         "A-np: numpy object-dtype arithmetic is the real reading of float64 arithmetic",
     )
     rep.stub("Combiner: eko nf_default -> enumerated nf (contract: C06)", "CouplingConstants.get_weight -> uninterpreted w (kernel-level lemmas)")
-    secs = [("decoupling", sec_decoupling), ("positron", sec_positron), ("cc", sec_cc_conjugation), ("cctargets", sec_cc_conjugation_targets), ("flavour", sec_flavour_symmetry), ("tagged", sec_flavour_symmetry_tagged), ("xsconj", sec_xs_conjugation), ("svprojectors", sec_sv_projectors)]
+    secs = [("decoupling", sec_decoupling), ("decouplingcard", sec_decoupling_via_card), ("positron", sec_positron), ("cc", sec_cc_conjugation), ("cctargets", sec_cc_conjugation_targets), ("flavour", sec_flavour_symmetry), ("tagged", sec_flavour_symmetry_tagged), ("xsconj", sec_xs_conjugation), ("svprojectors", sec_sv_projectors)]
     for nm, f in secs:
         if only and only not in nm:
             continue
